@@ -28,6 +28,8 @@ type DownCase struct {
 	Obs   int    `json:"obs"`   // observers holding the relation
 	Call  bool   `json:"call"`  // a request of another process is in flight when the fault happens
 	Pool  int    `json:"pool"`
+	// More: further target kinds every observer relates to as well (one consumer holding several relations on the node)
+	More []string `json:"more"`
 	// SlowReq: the requesting goroutine is descheduled for a moment between sending a remote request and waiting for its result
 	SlowReq bool `json:"slowreq"`
 }
@@ -224,6 +226,9 @@ func (r *DownRunner) emit(l *DownLine) {
 	if l.Res == nil {
 		l.Res = []string{}
 	}
+	if l.C.More == nil {
+		l.C.More = []string{}
+	}
 	b, _ := json.Marshal(l)
 	r.Out.Write(b)
 	r.Out.WriteByte('\n')
@@ -300,9 +305,21 @@ func (r *DownRunner) RunDown(c *DownCase) error {
 	}
 	line := DownLine{P: c.ID, Ev: "down", C: *c, RelRes: make([]string, c.Obs), RelMs: make([]int, c.Obs)}
 
+	var relateKind func(pr gen.Process, kind string) error
 	relate := func(pr gen.Process) error {
+		if err := relateKind(pr, c.Kind); err != nil {
+			return err
+		}
+		for _, k := range c.More {
+			if err := relateKind(pr, k); err != nil {
+				return err
+			}
+		}
+		return nil
+	}
+	relateKind = func(pr gen.Process, kind string) error {
 		link := c.Rel == "link"
-		switch c.Kind {
+		switch kind {
 		case "pid":
 			if link {
 				return pr.LinkPID(tpid)
